@@ -61,7 +61,7 @@ func init() {
 }
 
 func c08Cases(tier string, seed int64) []string {
-	n, k := 6, 6
+	n, k := 24, 8
 	if tier == "thorough" {
 		n, k = 1200, 1200
 	}
